@@ -190,6 +190,10 @@ func runC13(r *Run) error {
 	r.reconciles = len(runs)
 	for i, ru := range runs {
 		r.trace("run %d %s start=%v end=%v", i, ru.kind, ru.start, ru.end)
+		r.sig = append(r.sig, fmt.Sprintf("run %s %v %v", ru.kind, ru.start.Round(100*time.Millisecond), ru.end.Round(100*time.Millisecond)))
+	}
+	for _, a := range adds {
+		r.sig = append(r.sig, fmt.Sprintf("add %s %v", a.kind, a.at.Round(100*time.Millisecond)))
 	}
 	r.probe("c13_patterns")
 	if len(adds) >= 3 {
